@@ -80,6 +80,16 @@ extern ssize_t mpt_queue_peek(MPT_STRUCT(decode_queue) *qu, size_t max, void *ds
 	qu->_state.curr += off;
 	len = qu->_state.data.len;
 	
+	/* complete message is waiting: state is unchanged, data may wrap */
+	if (ret < 0 && dst && qu->_state.data.msg >= 0) {
+		if (len > max) {
+			len = max;
+		}
+		if (mpt_queue_get(&qu->data, qu->_state.data.pos, len, dst) < 0) {
+			return MPT_ERROR(MissingData);
+		}
+		return len;
+	}
 	if (ret < 0 || !dst) {
 		return len;
 	}
